@@ -17,6 +17,7 @@
 package main
 
 import (
+	"context"
 	"fmt"
 	"runtime"
 
@@ -53,6 +54,8 @@ func main() {
 		r.Assume("source pulls are compared after capping at len(source)+1: asking an already ended source again when the consumer asks again requests no item and is not counted against laziness")
 		r.Assume("Runs: in the main check the consumer drains every inner run before calling Next on the outer, as documented. A second check leaves inner runs undrained (0, 1, 2, all-but-one items read; a stream inner is not closed by the consumer) and advances the outer: the library skips the rest of the run itself - existing, intended behaviour of the code although the doc says the inner 'should' be drained - so run heads and run count must still be the reference's. Closing a stream inner early and then advancing is observed, not judged.")
 		r.Assume("source position: directly over the library's own sources (iterator.Slice / Chan / Counter / Repeat, stream.FromIterator(iterator.Slice), stream.Chan - no probe in between) the source must have advanced by exactly min(need(j), len) items after j requests: fewer is impossible for an implementation that takes its items from the source, more is forbidden by the laziness clause. For streams the position is read from the underlying iterator / channel. Package iterator has no sole-user rule: Join(First(it,k), it), head/rest splits and paging loops with First / Chunk / While are judged against the documented sequence (While takes the failing item with it)")
+		r.Assume("the value a source returns together with the end / an error is meaningless (Iterator doc): every int probe source returns changing non-zero garbage there; reference outputs never contain it. Outer sources of Flatten / FlattenSlices return a usable non-nil iterator / stream / a non-empty slice there")
+		r.Assume("reducers are documented to consume: after Collect / Last / Reduce / Equal (all sequences equal, any arity incl. 1) over the library's own sources the source must be exhausted; One must have taken min(len,2)..len items; Equal with a first disagreement at p at least min(p,len) of each")
 		r.Assume("argument integrity: no operation of this property is documented to modify a slice it is handed; every slice argument (variadic source lists, item slices, slices of slices) is a sub-slice with spare capacity of a sentinel-guarded array that must be unchanged after every request. stream.FlattenSlices overwriting the items INSIDE a slice it has consumed is recorded, not judged")
 		r.Assume("non-termination is decided by a call budget, not by time: callbacks and probe sources may be invoked at most 200*(n+16) times per run of one flavour over n items (legitimate runs need a few times n)")
 		r.Assume("parameters inside the documented domain only: chunkSize >= 1, First/Last n >= 0, xslices.Repeat n >= 0")
@@ -154,6 +157,7 @@ func main() {
 		r.Floor("random pipelines checked", r.Table("triples by operation", "pipeline"), int64(nPipe))
 		r.Floor("Next calls after the end checked", r.Table("totals", "Next calls after the end checked"), int64(3*N))
 		r.Floor("regression scenarios D1 (Last, n == 0)", r.Table("regression scenarios", "D1 iterator.Last / stream.Last with n == 0"), 3)
+		r.Floor("regression scenarios: value returned with the end by an outer source", r.Table("regression scenarios", "outer source returns a usable value together with the end (Flatten, FlattenSlices)"), 3)
 		r.Floor("regression scenarios D2 (xslices.Runs, leading run of length one)", r.Table("regression scenarios", "D2 Runs with a leading run of length one"), 3)
 	})
 }
@@ -172,6 +176,8 @@ func regress(a *acc) {
 		runRuns(a, d, eq, "same: a == b", func(s []int) [][]int { return xslices.Runs(s, eq) })
 		a.count("regression scenarios", "D2 Runs with a leading run of length one", 1)
 	}
+
+	regressGarbageOuter(a)
 
 	// Observed, not judged: abandoning an inner run before it is drained ("The inner iterator should
 	// be drained before calling Next on the outer iterator").
@@ -226,3 +232,71 @@ func regress(a *acc) {
 		}
 	}
 }
+
+// outerWithGarbage is an outer source that, together with the end, returns a non-nil value (as a
+// user-written iterator may: the contract calls that value meaningless).
+type outerWithGarbage[T any] struct {
+	items   []T
+	garbage T
+}
+
+func (o *outerWithGarbage[T]) Next() (T, bool) {
+	if len(o.items) == 0 {
+		return o.garbage, false
+	}
+	x := o.items[0]
+	o.items = o.items[1:]
+	return x, true
+}
+
+// regressGarbageOuter (fixed in /repo by 5eb179a): Flatten / FlattenSlices kept the value their
+// OUTER source returned together with the end and used it on the next call, so an item appeared
+// after the end had been reported. Now judged: after the reported end every Next reports the end.
+func regressGarbageOuter(a *acc) {
+	try := func(pkg, op string, f func() (int, bool)) {
+		if a.failed {
+			return
+		}
+		a.evals++
+		a.count("regression scenarios", "outer source returns a usable value together with the end (Flatten, FlattenSlices)", 1)
+		var x int
+		var ok bool
+		pan := vkit.Try(func() { x, ok = f() })
+		if pan != nil {
+			a.fail(panicKind(pan), pkg, op, fmt.Sprintf("%s.%s over an outer source that returns a non-nil value together with the end: %s", pkg, op, panicMsg(pan)), nil)
+		} else if ok {
+			a.fail("end-unstuck", pkg, op, fmt.Sprintf("%s.%s over an empty outer source that returns a usable value together with the end: first Next reported the end, the next Next returned %d (an item of that meaningless value)", pkg, op, x), nil)
+		}
+	}
+	try("iterator", "Flatten", func() (int, bool) {
+		f := iterator.Flatten[int](&outerWithGarbage[iterator.Iterator[int]]{garbage: &garbageIter{id: 1}})
+		f.Next()
+		return f.Next()
+	})
+	try("stream", "Flatten", func() (int, bool) {
+		f := stream.Flatten[int](&outerStreamWithGarbage{})
+		f.Next(bg)
+		x, err := f.Next(bg)
+		return x, err == nil
+	})
+	try("stream", "FlattenSlices", func() (int, bool) {
+		f := stream.FlattenSlices[int](&sliceStreamWithGarbage{})
+		f.Next(bg)
+		x, err := f.Next(bg)
+		return x, err == nil
+	})
+}
+
+// sliceStreamWithGarbage ends at once and returns a non-empty slice together with stream.End.
+type sliceStreamWithGarbage struct{}
+
+func (*sliceStreamWithGarbage) Next(context.Context) ([]int, error) { return []int{-777}, stream.End }
+func (*sliceStreamWithGarbage) Close()                              {}
+
+// outerStreamWithGarbage ends at once and returns a non-nil stream together with stream.End.
+type outerStreamWithGarbage struct{}
+
+func (*outerStreamWithGarbage) Next(context.Context) (stream.Stream[int], error) {
+	return &garbageStream{id: 1}, stream.End
+}
+func (*outerStreamWithGarbage) Close() {}
